@@ -45,7 +45,22 @@ class C13(Prop):
 
     def setup(self):
         import n0struct
-        self.parse = n0struct.parse_complex_csv_line
+        lib_parse = n0struct.parse_complex_csv_line
+        self._reparse = None
+
+        def parse(line, d):
+            # the caller owns the list it gets: it is changed in place here, and an equal line parsed afterwards
+            # must still give the fields of the line (a parse is a function of the line, not of earlier results)
+            r = lib_parse(line, d)
+            keep = list(r)
+            if isinstance(r, list):
+                r.append(r[0] if r else line[:0])
+                r.reverse()
+                again = lib_parse(line[:], d)
+                if list(again) != keep and self._reparse is None:
+                    self._reparse = "the line %r parsed to %r, and after the caller changed that list in place an equal line parsed to %r" % (line, keep, list(again))
+            return keep
+        self.parse = parse
         self.genrow = n0struct.generate_complex_csv_row
 
     # ---- generation -----------------------------------------------------------
@@ -104,6 +119,13 @@ class C13(Prop):
         return buf.getvalue()
 
     def run_impl(self, case):
+        self._reparse = None
+        try:
+            return self.run_impl1(case)
+        finally:
+            case["_reparse"] = self._reparse
+
+    def run_impl1(self, case):
         i, st = case["input"], case["stream"]
         d = i["d"]
         if st == "gen":
@@ -138,6 +160,9 @@ class C13(Prop):
     # ---- the property on the implementation ------------------------------------
     def oracle(self, case, obs):
         st, i = case["stream"], case["input"]
+        reparse = case.pop("_reparse", None)
+        if reparse:
+            return reparse
         if not st.startswith("rt_"):
             return None
         if "raise" in obs:
